@@ -23,3 +23,4 @@ open O2P.Gate
 #print axioms post_process_admits
 #print axioms post_process_checked
 #print axioms children_order_irrelevant
+#print axioms judge_is_sem
